@@ -296,17 +296,21 @@ pub fn generate(root: &Path, thorough: bool) -> Vec<BlobCase> {
         ("meta-marker-5k", 4, vec![w(0, 1, Some(1), 30), w(1, 2, None, 5 * 1024), d(0, 3, 0), w(2, 4, Some(2), 10), d(1, 5, 1)]),
         ("key8-four", 8, vec![w(0, 1, None, 12), w(1, 1, Some(1), 0), w(2, 2, None, 33), w(0, 5, None, 7)]),
     ];
+    hs.extend([
+        ("single", 4, vec![w(0, 1, None, 24)]),
+        ("empty-values", 4, vec![w(0, 1, None, 0), w(1, 2, None, 0), w(2, 3, None, 1)]),
+        ("same-key-versions", 4, vec![w(0, 1, None, 20), w(0, 2, None, 21), w(0, 3, None, 22), w(0, 3, None, 23), d(0, 2, 0)]),
+        ("markers-only", 4, vec![d(0, 1, 0), d(1, 2, 1), d(0, 3, 0)]),
+        ("big-meta", 4, vec![w(0, 1, Some(5), 24), w(1, 2, Some(7), 24), w(2, 3, None, 100)]),
+        ("key8-meta-marker", 8, vec![w(0, 1, Some(2), 50), d(0, 2, 2), w(1, 3, None, 600), w(2, 4, Some(1), 3)]),
+        ("ends-with-empty-value", 4, vec![w(0, 1, Some(1), 17), d(0, 2, 0), w(1, 3, None, 0)]),
+    ]);
     if thorough {
         hs.extend([
-            ("single", 4, vec![w(0, 1, None, 24)]),
-            ("empty-values", 4, vec![w(0, 1, None, 0), w(1, 2, None, 0), w(2, 3, None, 1)]),
-            ("same-key-versions", 4, vec![w(0, 1, None, 20), w(0, 2, None, 21), w(0, 3, None, 22), w(0, 3, None, 23), d(0, 2, 0)]),
-            ("markers-only", 4, vec![d(0, 1, 0), d(1, 2, 1), d(0, 3, 0)]),
-            ("big-meta", 4, vec![w(0, 1, Some(5), 24), w(1, 2, Some(7), 24), w(2, 3, None, 100)]),
-            ("key8-meta-marker", 8, vec![w(0, 1, Some(2), 50), d(0, 2, 2), w(1, 3, None, 600), w(2, 4, Some(1), 3)]),
             ("six-mixed", 4, vec![w(0, 1, None, 10), w(1, 2, Some(1), 300), d(0, 3, 0), w(2, 4, None, 2000), w(0, 5, Some(2), 5), d(2, 6, 0)]),
             ("two-5k", 4, vec![w(0, 1, None, 5 * 1024), w(1, 2, None, 4200)]),
             ("key8-single-5k", 8, vec![w(0, 1, Some(1), 5 * 1024)]),
+            ("ten-records", 4, (0..10u8).map(|i| if i % 4 == 3 { d(i % 3, 10 + i as u64, 0) } else { w(i % 3, 10 + i as u64, if i % 2 == 0 { Some(1) } else { None }, 9 * i as u32) }).collect()),
         ]);
     }
     let mut out = Vec::new();
